@@ -1,4 +1,5 @@
 import GopatchModel.FileM
+import GopatchModel.Spec.ImportsOnly
 namespace Gopatch.C11
 open Gopatch
 
@@ -85,5 +86,13 @@ theorem cleanup_adds_nothing (d : Data) (tree : V) (newNames : List String) (pat
     (imps : List (Option String × String)) (x : Option String × String)
     (hx : x ∈ cleanupImports d tree newNames paths imps) : x ∈ imps :=
   (cleanup_only_matched d tree newNames paths imps).1 x hx
+
+/-- **Editing the imports touches import declarations only.** Making the import declarations of the file follow the new
+import list (what astutil.AddNamedImport / DeleteNamedImport do to the tree: specs appended to the first import declaration,
+a new declaration in front when there is none, declarations merged, specs and emptied declarations removed) leaves every
+other declaration of the file as it is, in the same order. -/
+theorem import_edits_touch_import_declarations_only (tree : V) (old new : List (Option String × String)) :
+    otherDecls (syncImports tree old new) = otherDecls tree :=
+  syncImports_other_decls tree old new
 
 end Gopatch.C11
